@@ -50,10 +50,11 @@ class Pair(object):
 class U(object):
     """Guarded union: pairwise exclusive guards, concrete leaves."""
 
-    __slots__ = ("alts",)
+    __slots__ = ("alts", "total")
 
-    def __init__(self, alts):
+    def __init__(self, alts, total=False):
         self.alts = alts
+        self.total = total
 
     def __repr__(self):
         return "U[%s]" % ", ".join("%r" % (v,) for g, v in self.alts[:8]) + (
@@ -305,7 +306,7 @@ class VCtx(object):
             return v.alts
         return [(self.T, v)]
 
-    def mk_union(self, pairs, sweep=True):
+    def mk_union(self, pairs, sweep=True, total=False, partition=True):
         """pairs: [(guard, leaf-or-U)] with exclusive guards (before flattening).  Returns a
         Value: UNBOUND if empty, the leaf if a single alternative remains, else U."""
         m = self.m
@@ -361,8 +362,11 @@ class VCtx(object):
             return UNBOUND
         if len(res) == 1:
             return res[0][1]
-        m.new_partition([g for g, _ in res])
-        return U(res)
+        if partition and len(res) > 2:
+            m.new_partition([g for g, _ in res], total=total)
+        elif partition and len(res) == 2 and not (res[0][0].tags and res[1][0].tags):
+            m.new_partition([g for g, _ in res], total=total)
+        return U(res, total)
 
     def restrict(self, v, g):
         """alternatives of v compatible with guard g (guards conjoined)"""
@@ -403,6 +407,11 @@ class VCtx(object):
             return UNBOUND
         m = self.m
         F = self.F
+        total = True
+        for a in args:
+            if type(a) is U and not a.total:
+                total = False
+                break
         # speculative evaluation: operands are combined over *all* their alternatives, the
         # activity condition only decides which raised exceptions are real (stores select on it)
         base = self.T
@@ -445,6 +454,7 @@ class VCtx(object):
             if not hasp:
                 ok, res = _call(f, vals)
                 if not ok:
+                    total = False
                     if single:
                         ec = Cond(m.AND_S(pc.l, g))
                     else:
@@ -458,6 +468,8 @@ class VCtx(object):
             rv = tuple(v.r if type(v) is Pair else v for v in vals)
             okl, rl = _call(f, lv)
             okr, rr = _call(f, rv)
+            if not (okl and okr):
+                total = False
             if okl and okr:
                 out.append((g, mkpair(rl, rr)))
                 continue
@@ -473,7 +485,7 @@ class VCtx(object):
                 out.append((g, Pair(rl, UNBOUND)))
             elif okr:
                 out.append((g, Pair(UNBOUND, rr)))
-        return self.mk_union(out)
+        return self.mk_union(out, total=total)
 
     def select(self, c, new, old):
         """value that is `new` where c holds and `old` elsewhere (componentwise for pairs)"""
@@ -501,7 +513,8 @@ class VCtx(object):
             zero = [x for x, _ in pairs if x is not self.F and x.sig == 0 and x.known is None]
             if zero:
                 m.prove_false_batch(zero)
-            return self.mk_union(pairs, sweep=True)
+            tot = (type(new) is not U or new.total) and (type(old) is not U or old.total)
+            return self.mk_union(pairs, sweep=True, total=tot)
         # two-sided
         l = m.find(c.l)
         r = m.find(c.r)
@@ -566,7 +579,7 @@ class VCtx(object):
         for lab in var.domain:
             val = lab if mapping is None else mapping(lab)
             pairs.append((self.m.atom(var, lab), val))
-        return self.mk_union(pairs, sweep=False)
+        return self.mk_union(pairs, sweep=False, total=True)
 
     def guard_eq(self, v, const):
         """single guard: value v equals const (by vkey); pair leaves not allowed"""
